@@ -143,6 +143,12 @@ func runC42(c *Ctx) []Obligation {
 		{Prop: P, ID: "get.reads-hash-key", Fn: "(*types.TransactionIndexer).Get", Target: CallTo(`^invoke github\.com/tendermint/tm-db\.DB\.Get\(`).Except(`^invoke github\.com/tendermint/tm-db\.DB\.Get\(t\.store, hash\)$`), Why: "lookup by hash reads the record stored under that hash"},
 		{Prop: P, ID: "get.decode-error-fails", Fn: "(*types.TransactionIndexer).Get", Assume: []Lit{F(`^eq\(0, builtin\.len\(hash\)\)$`), T(`^nonnil\(invoke github\.com/tendermint/tm-db\.DB\.Get\(t\.store, hash\)#0\)$`), T(`^nonnil\(\(\*codec\.Codec\)\.UnmarshalBinaryBare\(`)}, Target: Success(), Why: "an undecodable record is an error"},
 	})...)
+	s2r := []Rename{{From: "tx.signer", To: "tx.recipient"}, {From: "Signer", To: "Recipient"}, {From: "signer", To: "recipient"}}
+	out = append(out,
+		c.twins(P, "twins.key", "types.keyForSigner", "types.keyForRecipient", s2r, "recipient keys are built like signer keys"),
+		c.twins(P, "twins.prefix", "types.prefixKeyForSigner", "types.prefixKeyForRecipient", s2r, "recipient prefixes are built like signer prefixes"),
+		c.twins(P, "twins.query", "(*types.TransactionIndexer).signerQuery", "(*types.TransactionIndexer).recipientQuery", s2r, "a recipient search is a signer search over the recipient index"),
+	)
 	out = append(out, c.edgeMust(P, "page.every-entry-counted", "(*types.TransactionIndexer).getByPrefix", `^invoke github\.com/tendermint/tm-db\.Iterator\.Valid\(`+it+`\)$`, true, `store:^&var:total = \(var:total \+ 1\)$ || ret:^nil ; 0 ; `, 1, "every entry in range is counted into the total (or the query fails)"))
 	return out
 }
